@@ -85,7 +85,7 @@ CHECKS = {
          "DESIGN.md section 4, C08"),
  "C09": ("bounded exhaustive enumeration of polylines x dash arrays x offsets x styles; the dasher's output (hook) compared with an independent arc-length dasher and the pixels with the stroke region of its pieces",
          "Open and closed polylines and two-subpath paths x all dash arrays of length 1-3 over {2,5,11,40,200} and length 4/6 over {3,7} x offsets of both signs up to +-10000.5 x caps/joins/widths: the pieces emitted by dash_path equal the on-intervals of M-DASH vertex for vertex (joined across a closed subpath's seam, complete closed outline when fully on), pixels match M-REGION of those pieces at 0.75 px, non-positive totals paint nothing.",
-         "Cases with a dash boundary within 2e-3 of a vertex are not asserted (piece structure ambiguous there); the overlapping-pieces rasteriser finding is listed; huge offsets are only combined with exactly representable periods; dash entries below 1e-3 are matched as dots by position.",
+         "Cases with a dash boundary within 2e-3 of a vertex are not asserted (piece structure ambiguous there) except in the exact-arithmetic family (integer axis-aligned polylines, dyadic entries, boundaries 1-3 floats in front of a vertex; tolerance 1e-7); the overlapping-pieces rasteriser finding is listed; huge offsets are only combined with exactly representable periods; dash entries below 1e-3 are matched as dots by position.",
          "DESIGN.md section 4, C09"),
 
  "C11": ("bounded exhaustive differential exploration (bit-exact) of transform equivalences, plus the step oracle's transform-preservation clause",
